@@ -14,6 +14,11 @@ func init() {
 			// indices pre-positioned so that the run wraps the initial chunk
 			add(c16Params{Init: 2, Max: 8, Producers: []int{2, 1}, Prefill: 1, Preload: 1}, 2, 4, 60)
 			add(c16Params{Init: 4, Max: 4, Producers: []int{3, 2}, Prefill: 3}, 2, 4, 60)
+			// the consumer follows the link into the bigger chunk while the producers push a whole chunk's worth:
+			// the slot it has just taken is reused as soon as it publishes its index
+			add(c16Params{Init: 2, Max: 4, Producers: []int{2, 2}, Preload: 3}, 2, 4, 60)
+			add(c16Params{Init: 2, Max: 4, Producers: []int{4}, Preload: 3}, 2, 4, 60)
+			add(c16Params{Init: 2, Max: 8, Producers: []int{4, 4}, Preload: 3}, 1, 4, 60)
 			return jobs
 		}
 		add(c16Params{Init: 2, Max: 4, Producers: []int{2, 2}}, 4, 16, 300)
@@ -23,6 +28,10 @@ func init() {
 		add(c16Params{Init: 4, Max: 4, Producers: []int{3, 2}, Prefill: 3}, 4, 16, 300)
 		add(c16Params{Init: 2, Max: 4, Producers: []int{2, 1, 1}, Preload: 2}, 3, 16, 300)
 		add(c16Params{Init: 4, Max: 16, Producers: []int{3, 3}, Preload: 3}, 3, 16, 300)
+		add(c16Params{Init: 2, Max: 4, Producers: []int{2, 2}, Preload: 3}, 4, 16, 300)
+		add(c16Params{Init: 2, Max: 4, Producers: []int{4}, Preload: 3}, 5, 16, 300)
+		add(c16Params{Init: 2, Max: 8, Producers: []int{4, 4}, Preload: 3}, 2, 16, 300)
+		add(c16Params{Init: 4, Max: 8, Producers: []int{8}, Preload: 5}, 3, 16, 300)
 		return jobs
 	}
 }
